@@ -304,14 +304,14 @@ def cases(run):
     # (1b) two-child collections on the tiny genome: all pairs (sampled in quick), all ranges, strict/relaxed
     pairs = [(a, b) for a in kids1 for b in kids1 if variants_ok([a, b])]
     rng.shuffle(pairs)
-    for a, b in pairs[: 40 if quick else 1500]:
+    for a, b in pairs[: 40 if quick else 900]:
         coll = enc_coll([a, b])
         src = rng.choice(srcs1)
         run.count("pairs (coll,parent)")
         yield from pos_lines(src, coll, all_ranges(0, L1 + 1), rng.sample(FLAGS, 4))
 
     # (2) random collections x ALL ranges x all flags
-    n2 = 10 if quick else 260
+    n2 = 10 if quick else 160
     for i in range(n2):
         L = rng.choice([5, 8, 10, 12, 12])
         kids = rand_coll(rng, 0, L)
@@ -325,7 +325,7 @@ def cases(run):
             yield from pos_lines("P - -", coll, all_ranges(0, L), rng.sample(FLAGS, 2))
 
     # (3) id / guid / interval-guid / identifier queries
-    n3 = 60 if quick else 1500
+    n3 = 60 if quick else 900
     for i in range(n3):
         L = rng.choice([6, 10, 12])
         kids = rand_coll(rng, 0, L)
@@ -339,7 +339,7 @@ def cases(run):
 
     # (3b) chunked results queried again: a relaxed query result has children reaching beyond its chunk;
     #      the same situation is built directly: children beyond the chunk window, all ranges inside the window
-    for i in range(6 if quick else 150):
+    for i in range(6 if quick else 90):
         L = 12
         kids = rand_coll(rng, 0, L, kinds="ggff")
         cs = rng.randint(1, 5)
@@ -350,4 +350,4 @@ def cases(run):
         yield from id_lines(rng, src, kids, cap=16)
 
     # (4) bin path
-    yield from bin_cases(run, 60 if quick else 1500)
+    yield from bin_cases(run, 60 if quick else 900)
